@@ -19,7 +19,7 @@ def c01(ctx, env):
 
 
 def c02(ctx, env):
-    env.src(ctx, ["R-FLOW", "R-EXH"])
+    env.src(ctx, ["R-THOMPSON", "R-PRIM", "R-FLOW", "R-EXH"])
     env.replay_gen(ctx, {"TV", "R-BSEARCH"})
     env.witnesses(ctx, ["ops", "classes", "prec", "mix"], {"TV", "COMPILE", "R-BSEARCH", "P9"}, FLOORS)
 
@@ -74,19 +74,21 @@ def c10(ctx, env):
 
 
 def c11(ctx, env):
+    env.src(ctx, ["R-CLASS"])
     env.tables(ctx, ["R-DATA"])
     env.replay_gen(ctx, {"R-BSEARCH", "TV"})
     env.witnesses(ctx, ["classes"], {"TV", "COMPILE", "R-BSEARCH", "P9"}, FLOORS)
 
 
 def c12(ctx, env):
-    env.src(ctx, ["R-DET", "R-WL"])
+    env.src(ctx, ["R-DET", "R-WL", "R-THOMPSON"])
     env.replay_gen(ctx, {"R-NAMES"})
     env.witnesses(ctx, ["modules", "rctx", "builtins", "rulesets", "classes", "munch"],
                   {"COMPILE", "R-NAMES"}, FLOORS)
 
 
 def c13(ctx, env):
+    env.src(ctx, ["R-CLASS", "R-THOMPSON"])
     env.tables(ctx, ["R-MAP", "R-DATA", "R-ORACLE"])
     env.replay_gen(ctx, {"R-BSEARCH", "TV"})
     env.witnesses(ctx, ["builtins"], {"TV", "COMPILE", "R-BSEARCH", "P9"}, FLOORS)
@@ -123,7 +125,7 @@ def check_generated_statics(ctx, env):
 
 
 def c16(ctx, env):
-    env.src(ctx, ["R-PARSE", "R-SCOPE"])
+    env.src(ctx, ["R-PARSE", "R-SCOPE", "R-THOMPSON", "R-CLASS"])
     env.replay_gen(ctx, {"TV"})
     env.witnesses(ctx, ["prec", "illformed"], {"TV", "COMPILE", "REJECT"}, FLOORS)
 
